@@ -894,11 +894,19 @@ def doubles(ctx, K, RecurrencePlot, rng, nprng, quick):
 
     # (b) object level: infinite samples
     reqs, impl = [], []
-    for c in range(40 if quick else 400):
+    mreqs, mimpl = [], []
+    for c in range(150 if quick else 1500):
         n = rng.randrange(2, 12 if quick else 30)
         den = rng.choice([2, 4])
         dimts = rng.choice([1, 1, 2])
         ts = np.array([[rng.randrange(0, 3 * den) / den for _ in range(dimts)] for _ in range(n)])
+        wide = rng.random() < 0.3
+        if wide:
+            # round 5: float32 samples 30-60 binades apart: the double differences are rounded
+            ts = np.array([[float(np.float32(rng.choice([0.0, 1.0, 0.5, 3.0])))
+                            + float(np.float32(rng.randrange(0, 5) * 2.0 ** -rng.choice([30, 41, 52, 60])))
+                            * rng.choice([0, 1]) for _ in range(dimts)] for _ in range(n)])
+            ctx.count("object4:float32-samples-far-apart")
         kw = {}
         if dimts == 1 and n >= 6 and rng.random() < 0.3:
             kw = {"dim": 2, "tau": rng.choice([1, 2])}
@@ -910,6 +918,8 @@ def doubles(ctx, K, RecurrencePlot, rng, nprng, quick):
                 ts[a, rng.randrange(dimts)] = np.nan
         mv = bool(np.isnan(ts).any()) and rng.random() < 0.8
         thr = rng.choice([1 / den, 2 / den, 3 / den, np.inf])
+        if wide:
+            thr = rng.choice([1.0, 1.0, 0.5, float(np.nextafter(1.0, 2)), 2.5, np.inf])
         dt = rng.choice([np.float32, np.float64])
         replay = {"time_series": [[repr(float(x)) for x in r] for r in ts], "dtype": np.dtype(dt).name,
                   "threshold": repr(float(thr)), "missing_values": mv, "kwargs": kw}
@@ -933,6 +943,29 @@ def doubles(ctx, K, RecurrencePlot, rng, nprng, quick):
         Mk = np.isnan(emb).sum(axis=1) != 0
         reqs.append(f"xmatrix b64 {emb.shape[1]} {int(mv)} {enc_xmat(emb.tolist())} {enc_x(thr)}")
         impl.append(f"{enc_mat(R)} {enc_vec(Mk)}")
+        # round 5: the methods as wholes (model `Model/LineDistMethods.lean`): both storage modes,
+        # the numerator of recurrence_rate(), white_vertline_dist() / its NotImplementedError
+        try:
+            parts = []
+            for sparse in (False, True):
+                rps, dd, vv = res[sparse]
+                rr = float(rps.recurrence_rate()) * N * N
+                if abs(rr - round(rr)) > 1e-6:
+                    ctx.fail({"kind": "object-methods", "method": "recurrence_rate", "sparse_rqa": sparse},
+                             f"recurrence_rate() * N^2 = {rr} is not an integer", replay)
+                parts.append(f"{enc_vec(dd)} {enc_vec(vv)} {int(round(rr))}")
+            parts.append(enc_vec(res[False][0].white_vertline_dist()))
+            try:
+                res[True][0].white_vertline_dist()
+                parts.append("returned")
+            except NotImplementedError:
+                parts.append("raise")
+            mreqs.append(f"xmethods b64 {emb.shape[1]} {int(mv)} {enc_xmat(emb.tolist())} {enc_x(thr)}")
+            mimpl.append(" ".join(parts))
+            ctx.count(f"methods:missing_values={mv}")
+        except Exception as e:  # noqa
+            ctx.fail({"kind": "object-methods", "error": type(e).__name__},
+                     f"RQA methods raised {type(e).__name__}: {e}", replay)
         if mv:
             expv = oracle_lines_mv(mv_cells_rows(R, Mk), N)
             expd = [2 * x for x in oracle_lines_mv(mv_cells_diags(R, Mk), N)]
@@ -958,6 +991,9 @@ def doubles(ctx, K, RecurrencePlot, rng, nprng, quick):
                              dict(replay, expected=exp, observed=got))
     ctx.correspond("model fixedThresholdX(binary64) == RecurrencePlot.recurrence_matrix() on series "
                    "with infinite / NaN samples", reqs, impl)
+    ctx.correspond("model of the methods diagline_dist / vertline_dist / recurrence_rate / "
+                   "white_vertline_dist (Python layer + generated kernels, binary64) == RecurrencePlot "
+                   "in both storage modes", mreqs, mimpl)
 
 
 def criteria_and_subclasses(ctx, rng, nprng, quick):
